@@ -116,6 +116,7 @@ class KaniResult:
         self.nchecks = 0
         self.stats = {}
         self.detail = ""
+        self.full_id = None
 
 
 def run_kani(run, harnesses, jobs=None, timeout_s=300, tag="k", mem_gb=None, extra_args=()):
@@ -180,6 +181,7 @@ def _parse_json(data, res):
         if n not in res:
             continue
         k = res[n]
+        k.full_id = r.get("harness_id", "")
         k.time_s = r.get("duration_ms", 0) / 1000.0
         k.stats = stats.get(n, {})
         checks = r.get("checks", []) or []
@@ -287,12 +289,13 @@ def _parse_terse(out, res, only_missing=False):
             res[n].status = "timeout"
 
 
-def playback(run, h, timeout_s=600, extra_args=()):
+def playback(run, h, timeout_s=600, extra_args=(), full_id=None):
     """Re-run one failing harness alone with concrete playback and return the list of byte vectors."""
     tdir = os.path.join(run.scratch, "kani-target")
     cmd = ["cargo", "kani", "--target-dir", tdir, "--output-format", "terse", "-Z", "unstable-options",
            "-Z", "stubbing", "-Z", "concrete-playback", "--concrete-playback=print", "--no-slice-formula",
-           "--harness-timeout", f"{int(timeout_s)}s", "--harness", f"::proofs::{h.name}"] + list(extra_args)
+           "--harness-timeout", f"{int(timeout_s)}s"] + (["--harness", full_id, "--exact"] if full_id else
+                                                          ["--harness", f"::proofs::{h.name}"]) + list(extra_args)
     rc, out = run_cmd(cmd, cwd=run.snap, timeout=timeout_s + 240)
     tests = []
     for m in re.finditer(r"let concrete_vals: Vec<Vec<u8>> = vec!\[(.*?)\n\s*\];", out, re.S):
@@ -362,7 +365,7 @@ def decide(run, overlay_harnesses, results, replay=True, on_unreproduced=None):
                 run.obligation(h.cell, "kani-harness", "fail-unreplayed", r.time_s, failed=r.failed, **base)
                 run.inconc(h.cell, "counterexample not replayed: " + what, h.mandatory)
                 continue
-            tests, descr, pout = playback(run, h)
+            tests, descr, pout = playback(run, h, full_id=getattr(r, "full_id", None) or None)
             if not tests:
                 run.obligation(h.cell, "kani-harness", "fail-noplayback", r.time_s, failed=r.failed, **base)
                 run.inconc(h.cell, "CBMC reported a failing check but concrete playback produced no values: " + what,
